@@ -856,11 +856,19 @@ class Engine:
         last = ids[-1]
         h = ADT_BUILDERS.get(last if not (len(ids) >= 2 and ids[-2][:1].isupper()) else ids[-2])
         is_variant = len(ids) >= 2 and ids[-2][:1].isupper() and last[:1].isupper()
+        if not is_variant and dest_ty and last[:1].isupper():
+            # glob-imported variants print as a bare name: the destination type says which enum it is
+            dh = type_head(dest_ty)
+            if dh != last:
+                vs0, d0 = srcindex.enum_variants(dh, last)
+                if vs0 is not None and last in d0:
+                    return EnumV(ty, d0[last], last, {(last, i): v for i, v in enumerate(vals)})
         if is_variant:
             enum_head = ids[-2]
             vs, d = srcindex.enum_variants(enum_head, last)
             if vs is None or last not in d:
-                raise Inconclusive('unknown enum %s::%s' % (enum_head, last))
+                # enum of an external crate that is never matched on here: keep it by name only
+                return EnumV(ty, None, last, {(last, i): v for i, v in enumerate(vals)})
             return EnumV(ty, d[last], last, {(last, i): v for i, v in enumerate(vals)})
         if h is not None:
             return h(self, ty, vals)
